@@ -255,6 +255,51 @@ MUTANTS = [
          old="self.push_op(Op::JumpIfFalse, &[comparison_register]);\n                    jump_offsets.push(", new="self.push_op(Op::JumpIfTrue, &[comparison_register]);\n                    jump_offsets.push(", expect="V-codegen::Compiler::compile_comparison_op::"),
     dict(name="codegen_cmp_stale_lhs_register", kind="break", prop="C01", units=["V-codegen"], file="crates/bytecode/src/compiler.rs",
          old="                    lhs_register = rhs_lhs_register;\n", new="", expect="V-codegen::Compiler::compile_comparison_op::"),
+    dict(name="codegen_try_f31_finally_output_returned", kind="break", prop="C01", units=["V-codegen"], file="crates/bytecode/src/compiler.rs",
+         old="""            self.compile_node(*finally_block, ctx.with_register(finally_result_register))?;
+        }
+
+        Ok(result)""", new="""            self.compile_node(*finally_block, ctx.with_register(finally_result_register))
+        } else {
+            Ok(result)
+        }""", expect="V-codegen::Compiler::compile_try_expression::"),
+    dict(name="codegen_try_block_value_kept_despite_finally", kind="break", prop="C04", units=["V-codegen"], file="crates/bytecode/src/compiler.rs",
+         old="""            Some(result_register) if finally_block.is_none() => {
+                ResultRegister::Fixed(result_register)
+            }""", new="""            Some(result_register) => ResultRegister::Fixed(result_register),""", expect="V-codegen::Compiler::compile_try_expression::try_block_layout_and_catch_point"),
+    dict(name="codegen_try_catch_section_keeps_catch_point", kind="break", prop="C04", units=["V-codegen"], file="crates/bytecode/src/compiler.rs",
+         old="""        self.push_op(TryEnd, &[dummy_byte]);
+
+        for (i, catch_block)""", new="""        for (i, catch_block)""", expect="V-codegen::Compiler::compile_try_expression::"),
+    dict(name="codegen_try_catch_offset_lands_after_try_end", kind="break", prop="C04", units=["V-codegen"], file="crates/bytecode/src/compiler.rs",
+         old="""        self.update_offset_placeholder(catch_offset)?;
+
+        // Clear the catch point at the start of the catch block
+        // - if the catch block has been entered, then it needs to be de-registered in case there
+        //   are errors thrown in the catch block.
+        self.push_op(TryEnd, &[dummy_byte]);""", new="""        // Clear the catch point at the start of the catch block
+        // - if the catch block has been entered, then it needs to be de-registered in case there
+        //   are errors thrown in the catch block.
+        self.push_op(TryEnd, &[dummy_byte]);
+
+        self.update_offset_placeholder(catch_offset)?;""", expect="V-codegen::Compiler::compile_try_expression::"),
+    dict(name="codegen_try_no_jump_over_catch_blocks", kind="break", prop="C04", units=["V-codegen"], file="crates/bytecode/src/compiler.rs",
+         old="""        self.push_op_without_span(Jump, &[]);
+        finally_jump_placeholders.push(self.push_offset_placeholder());
+
+        // Compile the catch block""", new="""        finally_jump_placeholders.push(self.push_offset_placeholder());
+
+        // Compile the catch block""", expect="V-codegen::Compiler::compile_try_expression::"),
+    dict(name="codegen_try_catch_register_not_released", kind="break", prop="C01", units=["V-codegen"], file="crates/bytecode/src/compiler.rs",
+         old="        self.pop_register()?; // catch_register\n", new="", expect="V-codegen::Compiler::compile_try_expression::"),
+    dict(name="codegen_try_finally_any_register", kind="break", prop="C04", units=["V-codegen"], file="crates/bytecode/src/compiler.rs",
+         old="""            let finally_result_register = match result.register {
+                Some(result_register) => ResultRegister::Fixed(result_register),
+                _ => ResultRegister::None,
+            };""", new="""            let finally_result_register = match result.register {
+                Some(_result_register) => ResultRegister::Any,
+                _ => ResultRegister::None,
+            };""", expect="V-codegen::Compiler::compile_try_expression::finally_block_last_reached_from_the_try_block_gives_the_value"),
     dict(name="bytecursor_next_back_front_byte", kind="break", prop="C13", units=["V-bytecursor"], file="crates/runtime/src/types/iterator.rs",
          old="let result = (self.bytes)[self.end];", new="let result = (self.bytes)[self.index];", expect="V-bytecursor::ByteIterator::next_back::yields_back_position"),
     dict(name="bytecursor_next_reads_after_advance", kind="break", prop="C13", units=["V-bytecursor"], file="crates/runtime/src/types/iterator.rs",
